@@ -64,7 +64,7 @@ class Tr:
             elif isinstance(st,ast.If):
                 # test on scalar/str params only; both branches must assign same names
                 test=self.test(st.test)
-                a=Tr(self.ty); ba=a.stmts(st.body); b=Tr(self.ty); bb=b.stmts(st.orelse)
+                a=type(self)(self.ty); ba=a.stmts(st.body); b=type(self)(self.ty); bb=b.stmts(st.orelse)
                 na=[x[1] for x in ba]; nb=[x[1] for x in bb]
                 if set(na)!=set(nb): raise Unsupported('branches assign different names')
                 for v in dict.fromkeys(na):
@@ -97,6 +97,7 @@ def translate(path,func,lo,hi,params,outs,name):
     args=' '.join(f'({p} : {"xv" if t in("num","scalar") else "string" if t=="str" else "option xv"})' for p,t in params.items())
     tup='('+', '.join(outs)+')'
     return f'Definition {name} {args} :=\n{emit(blk,outs)}  {tup}.\n'
-R='/repo/src/scores/'
-print(translate(R+'continuous/quantile_loss_impl.py','quantile_score',86,94,{'fcst':'num','obs':'num','alpha':'scalar'},['result'],'gen_quantile_score'))
-print(translate(R+'categorical/multicategorical_impl.py','_single_category_score',208,236,{'fcst':'num','obs':'num','risk_parameter':'scalar','categorical_threshold':'num','discount_distance':'optscalar','threshold_assignment':'str'},['firm_score','overforecast_penalty','underforecast_penalty'],'gen_firm_single'))
+if __name__=='__main__':
+    R='/repo/src/scores/'
+    print(translate(R+'continuous/quantile_loss_impl.py','quantile_score',86,94,{'fcst':'num','obs':'num','alpha':'scalar'},['result'],'gen_quantile_score'))
+    print(translate(R+'categorical/multicategorical_impl.py','_single_category_score',208,236,{'fcst':'num','obs':'num','risk_parameter':'scalar','categorical_threshold':'num','discount_distance':'optscalar','threshold_assignment':'str'},['firm_score','overforecast_penalty','underforecast_penalty'],'gen_firm_single'))
